@@ -3,6 +3,8 @@ import re
 from .. import core, progdiff
 from ..gen import Lib, ProgGen
 
+PROOF_MODULES = ['Resynth.Props.C14', 'Resynth.Props.C14Laws']
+
 RULE = ("type-directed random programs compiled by the real binary and the model, plus metamorphic variants of each: "
         "(a) a second let of an existing name appended -> MultipleAssign at that let; (b) a use of an unbound name / "
         "un-imported module inserted -> Name error there; (c) duplicated imports -> identical pcap; (d) every use of a "
